@@ -59,6 +59,10 @@ func genC14(seed uint64, tier string) Case {
 	for i := 0; i < n; i++ {
 		ttl := int64(1 + r.intn(400))
 		hold := int64(r.intn(120))
+		if r.chance(1, 2) {
+			// leave exactly when (or a hair before/after) another caller arrives: the differences of the arrival instants
+			hold = []int64{0, 1, 4, 5, 15, 19, 20, 30, 45, 49, 50}[r.intn(11)]
+		}
 		if r.chance(1, 4) {
 			hold = ttl + int64(r.intn(50)) // holds past its TTL
 		}
